@@ -85,6 +85,10 @@ fn raw_pool() -> Vec<(u16, Vec<u8>)> {
     for (j, t) in [0x0000u16, 0xffff, 0x7fff, 0x8000, 0x0007, 0x001b, 0x001d, 0x8027, 0x8029].into_iter().enumerate() {
         v.push((t, vec![0xE0 + j as u8; (j * 5) % 7]));
     }
+    // attributes that say something about the credentials, carried raw (index 33 onwards):
+    // PASSWORD-ALGORITHM selecting SHA-256, USERHASH
+    v.push((0x001d, vec![0, 2, 0, 0]));
+    v.push((0x001e, vec![0x5a; 32]));
     v
 }
 
@@ -749,7 +753,7 @@ pub fn run(ctx: &mut Ctx) {
         for _ in 0..len {
             ops.push(match rng.below(20) {
                 0..=7 => Op::Typed(rng.below(16) as u8),
-                8..=13 => Op::Raw(rng.below(33) as u8),
+                8..=13 => Op::Raw(rng.below(35) as u8),
                 14 => Op::Dup,
                 15 => Op::Sha1,
                 16 => {
